@@ -699,7 +699,7 @@ impl Prop for P {
         "generated functions: every variable of a subset of {x, y, z} plus 0-32 free variables multiplied by its own \
          distinct dyadic coefficient and combined in a generated order by add / min / max (the traversal, hence slot, order \
          is randomised); ShapeVars filled in a generated order plus unrelated extras; transform none / affine / projective \
-         (uniform w, or a general bottom row with a positive denominator) with dyadic entries; 1-9 samples; interpreter or JIT. Oracle: Context::eval with an explicit map whose \
+         (uniform w incl. 2^-24 and 2^-30, or a general bottom row with a positive denominator) with dyadic entries; a variable array that is too long, too short or empty is an error; a missing variable is reported by identity by the evaluators and by ShapeVars::check / Shape::bind; 1-9 samples; interpreter or JIT. Oracle: Context::eval with an explicit map whose \
          X, Y, Z are the exactly transformed position and each free variable its own value, compared with == through \
          every entry point (eval, eval_with_transform, eval_with_vars, eval_with_transform_and_vars, eval_raw, bulk with \
          scalar variables and with per-sample arrays), interval results must contain it, gradient value equals it and, \
